@@ -122,7 +122,7 @@ class Tree:
                 if r.ctx == 'instruction':
                     stats['operand_links'] = stats.get('operand_links', 0) + 1
                 target = self.resolve(page, path)
-                rec = {'page': rel, 'tag': r.tag, 'attr': r.attr, 'url': r.url, 'line': r.line, 'target': target}
+                rec = {'page': rel, 'tag': r.tag, 'attr': r.attr, 'url': r.url, 'line': r.line, 'target': target, 'ctx': r.ctx}
                 if target is None:
                     rec['why'] = 'path leaves the output tree'
                     problems.append(rec)
